@@ -92,16 +92,6 @@ theorem C06_iff_strict (null : Option Str) (cols : List Column) (j i : Nat) :
             · simp [hf, hj]
             · simp [hf]
 
-theorem applyNullCol_floats_cases (u : Bool) (null : Option Str) (j : Nat) (cells : List Str) :
-    applyNullCol u null j (.floats cells) = .floats cells ∨
-      ∃ nv, null = some nv ∧ applyNullCol u null j (.floats cells) = .floats (nullCells nv cells) := by
-  cases null with
-  | none => left; exact applyNullCol_nonnumeric u j _
-  | some nv =>
-    by_cases h : (u && j != 0) = true
-    · right; exact ⟨nv, rfl, by simp [applyNullCol, h]⟩
-    · left; simp [applyNullCol, h]
-
 /-- a cell that does not become NaN keeps its value (no other value is ever written) -/
 theorem C06_other_cells (u : Bool) (null : Option Str) (cols : List Column) (j i : Nat) (v : Str)
     (h : floatCell (applyNull u null cols) j i = some v) (hv : v ≠ nanTxt) : floatCell cols j i = some v := by
@@ -144,15 +134,15 @@ theorem C06_nan_kept (u : Bool) (null : Option Str) (cols : List Column) (j i : 
 
 /-! ### hypotheses are necessary, non-vacuity -/
 
-def tf (s : String) : Str := s.toList
+def c06s (s : String) : Str := s.toList
 
 /-- −999.25 as `float.hex()` -/
-def nullHex : Str := tf "-0x1.f3a0000000000p+9"
+def nullHex : Str := c06s "-0x1.f3a0000000000p+9"
 
 /-- the index column keeps a NULL-equal sample while the same value in column 1 becomes NaN (so `j ≠ 0` is necessary) -/
 theorem C06_index_exception :
-    applyNull true (some nullHex) [.floats [nullHex], .floats [nullHex, tf "0x1.0000000000000p+0"], .text [tf "-999.25"]]
-      = [.floats [nullHex], .floats [nanTxt, tf "0x1.0000000000000p+0"], .text [tf "-999.25"]] := by decide
+    applyNull true (some nullHex) [.floats [nullHex], .floats [nullHex, c06s "0x1.0000000000000p+0"], .text [c06s "-999.25"]]
+      = [.floats [nullHex], .floats [nanTxt, c06s "0x1.0000000000000p+0"], .text [c06s "-999.25"]] := by decide
 
 /-- `==` is numeric: a NULL of 0 also catches −0.0 -/
 example : applyNull true (some zeroPos) [.floats [zeroPos], .floats [zeroNeg, zeroPos]] =
